@@ -383,6 +383,7 @@ macro_rules! impl_cache {
                     callback: self.callback.clone(),
                     key_to_hash: self.key_to_hash.clone(),
                     is_closed: self.is_closed.clone(),
+                    processor_stopped: self.processor_stopped.clone(),
                     coster: self.coster.clone(),
                     metrics: self.metrics.clone(),
                     _marker: self._marker,
